@@ -8,7 +8,7 @@ from core import LeanDriver, canon, CORPUS_DIR
 from gen import removalplan
 
 ID = "C08"
-GENERATORS = [removalplan.generate]
+GENERATORS = [removalplan.generate, removalplan.generate_probe]
 LEAN_MODULES = ["FimVerif.Proofs.C08"]
 P = "FimVerif.C08."
 THEOREMS = [P + t for t in (
@@ -27,6 +27,10 @@ THEOREMS = [P + t for t in (
     "plan_bridge", "plan_facts", "remove_interface_exact_wf", "remove_interface_byName",
     # round 5: after a rename no other name denotes the element; what a lookup finds carries the name now
     "findChild_rename_ne", "findChild_rename_spec", "findByName_rename_ne",
+    # round 7: a surviving element keeps class, kind and its whole property payload - after one call and after any sequence
+    "survivor_unchanged", "survivor_unchanged_seq",
+    # the catalog probe: the entry points that remove a component leave nothing of the peering behind for ANY model with ports
+    "catalog_removal_clean", "service_properties_kept",
 )]
 TRUSTED_BASE = [
     "Model/Remove.lean mirrors by hand the bodies of remove_cp_and_links, Interface.get_peers, find_peer_connection_points, "
